@@ -637,6 +637,12 @@ func (b *teletextPageBuffer) parsePacketHeader(i []byte, magazineNumber uint8, t
 		return
 	}
 
+	// Page numbers are made of 2 hexadecimal digits but only the pages made of 2 decimal digits can be selected:
+	// make sure a page such as 0x1a is not mistaken for page 20
+	if pageNumberTens > 9 || pageNumberUnits > 9 {
+		pageNumber = -1
+	}
+
 	// Update magazine and page number
 	if b.magazineNumber == 0 && b.pageNumber == 0 {
 		// C6
@@ -647,7 +653,7 @@ func (b *teletextPageBuffer) parsePacketHeader(i []byte, magazineNumber uint8, t
 		subtitleFlag := controlBits&0x8 > 0
 
 		// This is a subtitle page
-		if subtitleFlag {
+		if subtitleFlag && pageNumber >= 0 {
 			b.magazineNumber = magazineNumber
 			b.pageNumber = pageNumber
 			log.Printf("astisub: no teletext page specified, using page %d%.2d", b.magazineNumber, b.pageNumber)
